@@ -1026,7 +1026,9 @@ class UTPM(Ring, RawAlgorithmsMixIn):
     @classmethod
     def real(cls, x):
         """ UTPM equivalent to numpy.real """
-        return cls(x.data.real)
+        # a view also for real data (x.data.real is x.data itself there, which the tracer would
+        # take for a new buffer although it aliases x)
+        return cls(x.data.real.view())
 
     @classmethod
     def pb_real(cls, ybar, x, y, out=None):
